@@ -702,7 +702,8 @@ class ShapedSliceIndexer(Indexer):
             # Case 1: Requested flat or nonflat indices but src_shape is None or flat
             # return a flattened arange
             slc = self._slice
-            if slc.stop is None and slc.step < 0:  # special case - neg step down to -1
+            if slc.step < 0 and (slc.stop is None or slc.start is None):
+                # special case - neg step down to -1 and/or starting from the last entry
                 return np.arange(self._src_shape[0], dtype=int)[slc]
             else:
                 # use maxsize here since a shaped slice always has positive int start and stop
